@@ -3,6 +3,8 @@ package c09
 import (
 	"fmt"
 	"math"
+	"sync"
+	"sync/atomic"
 
 	"github.com/EliCDavis/polyform/math/sample"
 	"github.com/EliCDavis/vector/vector3"
@@ -12,16 +14,20 @@ const blockCells = 100 // the canvas stores 100^3 samples per block (observable:
 
 // recorder wraps the field function handed to polyform and remembers, per
 // lattice point, the value the canvas was given. It is the harness's view of
-// "the same field on the same lattice".
+// "the same field on the same lattice". The parallel adders call the wrapped
+// function from several goroutines: every lattice point has its own slot in the
+// dense arrays, the few shared things are atomics or behind a mutex, and the
+// summary (count, range) is computed by finish() after the adder has returned.
 type recorder struct {
 	cpu      float64
 	lo, n    [3]int
 	val      []float64
-	has      []bool
+	has      []uint32 // 0/1, written with atomics
+	mu       sync.Mutex
 	extra    map[[3]int]float64
 	samples  int
-	repeated int
-	offGrid  int // sample positions that are not lattice points (never expected)
+	repeated int64
+	offGrid  int64 // sample positions that are not lattice points (never expected)
 	smin     [3]int
 	smax     [3]int
 }
@@ -33,13 +39,12 @@ func newRecorder(cpu float64, domMin, domMax vec) *recorder {
 		r.lo[k] = int(math.Floor(domMin[k]*cpu)) - 4
 		r.n[k] = int(math.Ceil(domMax[k]*cpu)) + 4 - r.lo[k] + 1
 		vol *= r.n[k]
-		r.smin[k], r.smax[k] = math.MaxInt32, math.MinInt32
 	}
 	if vol > 60_000_000 {
 		panic(fmt.Sprintf("harness: lattice box %v too large", r.n))
 	}
 	r.val = make([]float64, vol)
-	r.has = make([]bool, vol)
+	r.has = make([]uint32, vol)
 	return r
 }
 
@@ -57,9 +62,34 @@ func (r *recorder) wrap(f sample.Vec3ToFloat) sample.Vec3ToFloat {
 		fx, fy, fz := p.X()*r.cpu, p.Y()*r.cpu, p.Z()*r.cpu
 		q := [3]int{int(math.Round(fx)), int(math.Round(fy)), int(math.Round(fz))}
 		if math.Abs(fx-float64(q[0]))+math.Abs(fy-float64(q[1]))+math.Abs(fz-float64(q[2])) > 1e-6 {
-			r.offGrid++
+			atomic.AddInt64(&r.offGrid, 1)
 			return v
 		}
+		if i, ok := r.at(q); ok {
+			r.val[i] = v // a point sampled twice at once would be a (counted) repetition; the value is the same
+			if atomic.SwapUint32(&r.has[i], 1) == 1 {
+				atomic.AddInt64(&r.repeated, 1)
+			}
+		} else {
+			r.mu.Lock()
+			if _, dup := r.extra[q]; dup {
+				atomic.AddInt64(&r.repeated, 1)
+			}
+			r.extra[q] = v
+			r.mu.Unlock()
+		}
+		return v
+	}
+}
+
+// finish computes the number of distinct sampled points and their range. Call it
+// after the last evaluation (no adder goroutine outlives its call).
+func (r *recorder) finish() {
+	r.samples = 0
+	for k := 0; k < 3; k++ {
+		r.smin[k], r.smax[k] = math.MaxInt32, math.MinInt32
+	}
+	note := func(q [3]int) {
 		r.samples++
 		for k := 0; k < 3; k++ {
 			if q[k] < r.smin[k] {
@@ -69,18 +99,20 @@ func (r *recorder) wrap(f sample.Vec3ToFloat) sample.Vec3ToFloat {
 				r.smax[k] = q[k]
 			}
 		}
-		if i, ok := r.at(q); ok {
-			if r.has[i] {
-				r.repeated++
+	}
+	i := 0
+	for z := 0; z < r.n[2]; z++ {
+		for y := 0; y < r.n[1]; y++ {
+			for x := 0; x < r.n[0]; x++ {
+				if r.has[i] != 0 {
+					note([3]int{x + r.lo[0], y + r.lo[1], z + r.lo[2]})
+				}
+				i++
 			}
-			r.has[i], r.val[i] = true, v
-		} else {
-			if _, dup := r.extra[q]; dup {
-				r.repeated++
-			}
-			r.extra[q] = v
 		}
-		return v
+	}
+	for q := range r.extra {
+		note(q)
 	}
 }
 
@@ -88,7 +120,7 @@ func (r *recorder) wrap(f sample.Vec3ToFloat) sample.Vec3ToFloat {
 // recorded sample, or 0 where the field was never sampled (fresh block memory).
 func (r *recorder) value(q [3]int) (float64, bool) {
 	if i, ok := r.at(q); ok {
-		if r.has[i] {
+		if r.has[i] != 0 {
 			return r.val[i], true
 		}
 		return 0, false
